@@ -8,6 +8,7 @@ from ..poly import Rat, Unsupported, formula
 from ..resolve import unresolved_self_loads
 
 ACCESSORS = ("num_bins", "bin_entries", "bin_edges", "bin_centers")
+CONFIRMED_ROUTING = {"Bin": {"bin"}, "SparselyBin": {"bin"}, "CentrallyBin": {"index"}}
 BINNED = ("Bin", "SparselyBin", "CentrallyBin", "IrregularlyBin")
 
 
@@ -369,6 +370,10 @@ def run(repo, rep, tier):
                         index_fns.add(idx_locals[x.id])
         predicates = {r for r in routing if r in ("under", "over", "nan")}
         routing = {r for r in routing if r in index_fns or r in predicates}
+        # the obligation exists only where sharing was confirmed on the pinned tree (Bin.bin, SparselyBin.bin, CentrallyBin.index): a class
+        # whose fill routes with code of its own (IrregularlyBin, also after an index helper has been extracted from fill) has no routing
+        # function that the accessors could be expected to share
+        routing &= CONFIRMED_ROUTING.get(c.name, set()) | predicates if CONFIRMED_ROUTING.get(c.name) else set()
         for an in ACCESSORS:
             a = repo.lookup(c, an)
             if not isinstance(a, FuncInfo):
